@@ -1864,7 +1864,11 @@ class System(object, metaclass=SystemMetaclass):
         self._during_coloring = False
         self._first_call_to_linearize = save_first_call
 
-        self._update_subjac_sparsity(self.subjac_sparsity_iter(sparsity=sparsity))
+        # sparsity has only the columns of the matched wrt variables, so the offsets of the
+        # sub-jacobians have to be those of the reduced jacobian as well.
+        self._update_subjac_sparsity(
+            self.subjac_sparsity_iter(sparsity=sparsity,
+                                      wrt_matches=self._coloring_info.wrt_matches))
 
         return sparsity, sp_info
 
